@@ -537,8 +537,35 @@ def build_cases(tier="quick"):
     return to_smt2_cases() + path_growth_cases() + dump_cases() + refine_ctx_cases() + ref
 
 
+def ground_name_of():
+    """labels of created symbols end up inside z3 symbol names: whatever the label holds, the name must be printable as an SMT-LIB symbol
+    every solver accepts, and must not be cut short (exhaustive: every label of up to 3 characters over {a, space, tab, |, \\, NUL})"""
+    import itertools
+
+    import halmos.cheatcodes as hc_
+
+    bad, n = [], 0
+    for k in range(0, 4):
+        for t in itertools.product("a \t|\\\x00", repeat=k):
+            lab = "".join(t)
+            n += 1
+            try:
+                r = hc_.name_of(lab)
+            except Exception as e:  # noqa
+                bad.append((lab, f"{type(e).__name__}"))
+                continue
+            c = z3.BitVec(f"halmos_{r}_uint256_abc_01", 256)
+            printed = c.sexpr()
+            if any(ch in r for ch in " \t\n|\\\x00") or not printed.endswith("_01") and not printed.endswith("_01|"):
+                if len(bad) < 3:
+                    bad.append((lab, r, printed))
+    return [(f"name_of: no whitespace, `|`, backslash or NUL survives in a symbol label, and the unique suffix is kept ({n} labels)", not bad, f"first: {bad[:2]!r}"[:300])]
+
+
 def grounds():
-    return [Ground(f"{PROP}/solve.refine", ground_refine, sources=("halmos.solve:refine",)), Ground(f"{PROP}/solve.refine", ground_refine_joint, sources=("halmos.solve:refine",)), Ground(f"{PROP}/lemma", ground_lemma)]
+    from contracts.common import ground_script
+
+    return [Ground(f"{PROP}/cheatcodes.name_of", ground_name_of, sources=("halmos.cheatcodes:name_of",)), Ground(f"{PROP}/cheatcodes.name_of#declared-symbols", ground_script("label_with_bar.py", "svm.createUint256(\"a|b\"): the query must be accepted by yices / cvc5", "a symbol created with a label containing `|` is declared in a form every solver parses"), sources=("halmos.cheatcodes:name_of",)), Ground(f"{PROP}/solve.refine", ground_refine, sources=("halmos.solve:refine",)), Ground(f"{PROP}/solve.refine", ground_refine_joint, sources=("halmos.solve:refine",)), Ground(f"{PROP}/lemma", ground_lemma)]
 
 
 ASSUMPTIONS = [
